@@ -100,7 +100,9 @@ def _perform(actions, maxcache):
     actions: ('call', call) | ('toggle',) | ('reg', r).  Returns per-call records and the
     ordered event list (the Trace row)."""
     log = B.EventLog()
-    B.install_logs(log)
+    plain = all(a[1].get('spelling', 'plain') == 'plain' for a in actions if a[0] == 'call')
+    log.type_cache = plain
+    B.install_logs(log, type_cache=plain)
     B.set_max_cache(maxcache)
     warnings.simplefilter('always')
     warnings.showwarning = lambda *a, **k: log.add({'e': 'warn'})
@@ -126,7 +128,7 @@ def _perform(actions, maxcache):
             out, text = B.run_call(ctx, bc)
             diff = B.snap_diff(before, B.snap_call(bc))
             log.add({'e': 'call', 'call': call, 'out': out})
-            calls.append(dict(out=out, text=text, diff=diff, star=star, regs=list(regs), cache=B.cache_state(),
+            calls.append(dict(out=out, text=text, diff=diff, star=star, regs=list(regs), cache=B.cache_state() if plain else None,
                               nwarn=sum(1 for e in log.events if e['e'] == 'warn')))
     return calls, log.events
 
@@ -200,7 +202,10 @@ def worker(states):
         if nacts != maxhist:
             continue                              # prefixes are covered by the maximal histories
         out['hist'] += 1
-        acts = _actions_of(hist, pool)
+        # the containers of targets / scopes in one of three spellings (plain, falsy subclasses holding
+        # data, list / OrderedDict subclasses with overridden access): the law does not distinguish them
+        spelling = ('plain', 'plain', 'falsy', 'sub')[len(json.dumps(hist)) % 4]
+        acts = [(a[0], dict(a[1], spelling=spelling)) if a[0] == 'call' else a for a in _actions_of(hist, pool)]
         preds = [ev for ev in hist if ev['e'] == 'end']
         row = check_history(acts, preds, maxcache, oracle, out, 'tlc-history')
         if len(out['rows']) < _CFG['rows_per_chunk']:
@@ -234,13 +239,29 @@ def map_dump(module, constants, wk, procs=None):
 
 
 # ---- code -> spec: random calls, long random histories ---------------------------------------
-SEGS = ['a', 'b', 'x', '*', '0', '1']
+SEGS = ['a', 'b', 'x', '*', '0', '1', '-1', '2']
+
+
+def rand_scalar(rng):
+    """small ints (0 often), '' and short strings, None, booleans, objects with a hostile __eq__"""
+    r = rng.random()
+    if r < 0.5:
+        return {'k': 'int', 'i': rng.choice([0, 0, 1, 1, 2, 3, 4, 5])}
+    if r < 0.65:
+        return {'k': 'str', 's': rng.choice(['', 's', 'uv'])}
+    if r < 0.8:
+        return {'k': 'bool', 'b': rng.random() < 0.5}
+    if r < 0.9:
+        return {'k': 'none'}
+    return {'k': 'hostile', 'n': rng.randint(1, 4)}
 
 
 def rand_value(rng, depth=0):
     r = rng.random()
     if depth >= 2 or r < 0.3:
-        return {'k': 'int', 'i': rng.randint(0, 5)}
+        return rand_scalar(rng)
+    if r < 0.36:
+        return {'k': 'tuple', 'v': [rand_value(rng, depth + 1) for _ in range(rng.randint(0, 2))]}
     if r < 0.6:
         keys = rng.sample(['a', 'b', '*', '0', 'opts'], rng.randint(0, 3))
         return {'k': 'dict', 'v': [[{'k': 'str', 's': k}, rand_value(rng, depth + 1)] for k in keys]}
@@ -324,8 +345,15 @@ def rand_call(rng, sids, depth=3, nest=0):
     sids[0] += 1
     sc = [[k, {'k': 'int', 'i': rng.randint(6, 9)}] for k in B.NAME_ORDER if rng.random() < 0.3]
     via = rng.choice(['glommer', 'spec', 'spec'] + ['glom'] * 12)
+    spelling = rng.choice(['plain', 'plain', 'falsy', 'sub'])
+    if rng.random() < 0.08:      # a one-shot iterator as target of a spec that consumes its target exactly once
+        spec = rng.choice([{'op': 'each', 'sp': rng.choice(['list', 'iter', 'uniq']), 'c': rand_spec(rng, depth - 1, sids, nest=nest)},
+                           {'op': 'acc', 'kind': rng.choice(['group', 'fold']), 'f': rng.choice(['id', 'inc'])},
+                           {'op': 'lastvar', 'init': 0, 'y': False}])
+        target = {'k': 'gen', 'v': [rand_scalar(rng) for _ in range(rng.randint(0, 3))]}
+        return {'t': target, 'sc': [] if via == 'glommer' else sc, 'sid': sids[0], 'spec': spec, 'via': via, 'spelling': spelling}
     return {'t': rand_value(rng), 'sc': [] if via == 'glommer' else sc, 'sid': sids[0],
-            'spec': rand_spec(rng, depth, sids, nest=nest), 'via': via}
+            'spec': rand_spec(rng, depth, sids, nest=nest), 'via': via, 'spelling': spelling}
 
 
 def rand_history(rng, length):
@@ -533,9 +561,10 @@ def main(tier, seed):
 def _main(check, tier, seed):
     configs = {'quick': [dict(PoolFrom=1, PoolSize=10, MaxHist=3, MaxToggles=1, MaxRegs=1),
                          dict(PoolFrom=11, PoolSize=4, MaxHist=3, MaxToggles=1, MaxRegs=1),
-                         dict(PoolFrom=15, PoolSize=6, MaxHist=3, MaxToggles=1, MaxRegs=1)],
+                         dict(PoolFrom=15, PoolSize=6, MaxHist=3, MaxToggles=1, MaxRegs=1),
+                         dict(PoolFrom=21, PoolSize=5, MaxHist=3, MaxToggles=1, MaxRegs=1)],
                'thorough': [dict(PoolFrom=1, PoolSize=14, MaxHist=3, MaxToggles=2, MaxRegs=1),
-                            dict(PoolFrom=11, PoolSize=16, MaxHist=3, MaxToggles=1, MaxRegs=1),
+                            dict(PoolFrom=11, PoolSize=21, MaxHist=3, MaxToggles=1, MaxRegs=1),
                             dict(PoolFrom=1, PoolSize=9, MaxHist=4, MaxToggles=1, MaxRegs=1)]}[tier]
     rows, drift, results = [], [], []
     for consts in configs:
@@ -577,12 +606,15 @@ def _main(check, tier, seed):
     check.extra['mechanism_drift'] = drift[:5]
     check.extra['mechanism_drift_count'] = len(drift)
     # vacuity: the same histories at the finest grain; every step kind and branch must occur
-    vres = vlib.run_tlc('MC_C06', cfg='MC_C06_fine', constants=dict(PoolFrom=1, PoolSize=26, MaxHist=2, MaxToggles=2, MaxRegs=2, Mutant='""'), heap='6g')
+    vres = vlib.run_tlc('MC_C06', cfg='MC_C06_fine', constants=dict(PoolFrom=1, PoolSize=14, MaxHist=2, MaxToggles=2, MaxRegs=2, Mutant='""'), heap='6g')
     vlib.tlc_must_pass(vres, 'MC_C06 fine-grained')
     check.add_tlc(vres, 'MC_C06 fine-grained (vacuity)')
     cov = B.mechanism_coverage([j['hist'] for j in vres['json'] if 'hist' in j])
     B.require_coverage(cov)
     check.extra['mechanism_coverage'] = cov
+    # the spec-object zoo: every stateful constructor as ONE object, reused, results scribbled over
+    import c06_zoo
+    c06_zoo.run_c06(check, tier, seed, match_finding)
     check.extra['mechanism_unobservable'] = in_child(B.observability)
     # subprocess cross-check of the fork shortcut
     check.extra['fresh_subprocess_crosschecks'] = subprocess_crosscheck(
@@ -598,11 +630,11 @@ def _main(check, tier, seed):
         # spec mutants: the law must be violated
         mres = {}
         for m, law in MUTANTS.items():
-            r = vlib.run_tlc('MC_C06', cfg='MC_C06_mutant', constants=dict(PoolFrom=11, PoolSize=16, MaxHist=3, MaxToggles=2, MaxRegs=2, Mutant='"%s"' % m))
+            r = vlib.run_tlc('MC_C06', cfg='MC_C06_mutant', constants=dict(PoolFrom=11, PoolSize=21, MaxHist=3, MaxToggles=2, MaxRegs=2, Mutant='"%s"' % m))
             mres[m] = r['violated']
             if r['violated'] != law:
                 raise vlib.MachineryError('spec mutant %s: expected %s violated, TLC says %s' % (m, law, r['violated']))
-        r = vlib.run_tlc('MC_C06', cfg='MC_C06_mutant_frame', constants=dict(PoolFrom=11, PoolSize=16, MaxHist=3, MaxToggles=2, MaxRegs=2, Mutant='"acconspec"'))
+        r = vlib.run_tlc('MC_C06', cfg='MC_C06_mutant_frame', constants=dict(PoolFrom=11, PoolSize=21, MaxHist=3, MaxToggles=2, MaxRegs=2, Mutant='"acconspec"'))
         mres['acconspec/frame'] = r['violated']
         if r['violated'] != 'FrameCondition':
             raise vlib.MachineryError('spec mutant acconspec: FrameCondition not violated (%s)' % r['violated'])
@@ -629,6 +661,9 @@ def replay(path):
         v = json.load(f)
     case = v['case']
     print('why:', v['why'])
+    if case.get('kind') == 'zoo':
+        import c06_zoo
+        return c06_zoo.replay_case(case)
     if case.get('kind') in ('tlc-history', 'random-history'):
         acts = [tuple(a) for a in case['actions']]
         out = dict(n=0, hist=0, nontrivial=0, bad=[], drift=[], rows=[], samples=[])
